@@ -212,6 +212,34 @@ where
     if back.0 != ts {
         return fail("as_cr:roundtrip", format!("From<chrono>(as_cr({})) = {} ({:?})", ts, back.0, U::unit()));
     }
+    // the other calendar entry points describe the same instant: naive date-time, optional naive
+    // date-time, naive date (midnight of that day), raw integers
+    let naive = cr.naive_utc();
+    let from_naive: DateTime<U> = naive.into();
+    let from_opt: DateTime<U> = Some(naive).into();
+    let from_none: DateTime<U> = None::<chrono::NaiveDateTime>.into();
+    if from_naive.0 != ts || from_opt.0 != ts || !from_none.is_nat() {
+        return fail("from_naive_datetime", format!("From<NaiveDateTime> of {} ({:?}) = {} / {} / none -> {}", ts, U::unit(), from_naive.0, from_opt.0, from_none.0));
+    }
+    let per_day: i128 = 86_400_000_000_000
+        / match U::unit() {
+            tevec::prelude::TimeUnit::Second => 1_000_000_000i128,
+            tevec::prelude::TimeUnit::Millisecond => 1_000_000,
+            tevec::prelude::TimeUnit::Microsecond => 1_000,
+            _ => 1,
+        };
+    let midnight = (ts as i128).div_euclid(per_day) * per_day;
+    // (the first day of the nanosecond range starts before the range does: not convertible)
+    if midnight >= i64::MIN as i128 + 1 {
+        let from_date: DateTime<U> = naive.date().into();
+        if from_date.0 as i128 != midnight {
+            return fail(format!("from_naive_date:{}", if ts < 0 { "pre-epoch" } else { "post-epoch" }), format!("From<NaiveDate> of the day of {} ({:?}) = {}, midnight of that day is {}", ts, U::unit(), from_date.0, midnight));
+        }
+    }
+    let (fi, fo, fn_): (DateTime<U>, DateTime<U>, DateTime<U>) = (ts.into(), Some(ts).into(), None::<i64>.into());
+    if fi.0 != ts || fo.0 != ts || !fn_.is_nat() || !DateTime::<U>::default().is_nat() {
+        return fail("from_i64", format!("From<i64> / From<Option<i64>> / default of {}", ts));
+    }
     let ns_per = match U::unit() {
         tevec::prelude::TimeUnit::Second => 1_000_000_000i128,
         tevec::prelude::TimeUnit::Millisecond => 1_000_000,
@@ -289,6 +317,7 @@ where
     must_nat!("datetime-delta", (nat - td).is_nat());
     must_nat!("datetime+natdelta", (valid + tdn).is_nat());
     must_nat!("datetime-natdelta", (valid - tdn).is_nat());
+    must_nat!("nat-nat", (nat - nat).is_nat() && (nat - DateTime::<U>::nat()).is_nat());
     must_nat!("nat-datetime", (nat - valid).is_nat());
     must_nat!("datetime-nat", (valid - nat).is_nat());
     must_nat!("duration_trunc", nat.duration_trunc(TimeDelta { months: 0, inner: chrono::Duration::seconds(c.secs.abs() + 1) }).is_nat());
